@@ -913,7 +913,7 @@ _SCRATCH = [None]
 def scratch_dir():
     if _SCRATCH[0] is None:
         import tempfile
-        base = "/dev/shm" if os.path.isdir("/dev/shm") else None
+        base = os.environ.get("VF_SCRATCH") or ("/dev/shm" if os.path.isdir("/dev/shm") else None)
         _SCRATCH[0] = tempfile.mkdtemp(prefix="vf-w%d-" % os.getpid(), dir=base)
         import atexit
         import shutil
@@ -1489,6 +1489,219 @@ def op_x_fresh(req):
     if not data:
         return {"result": {"raised": "ChildDied", "msg": ""}}
     return json.loads(data)
+
+
+# ---------------------------------------------------------------------------------- C11
+_HOSTILE = {"hook": False, "rec": None, "seeds": [], "n": 0}
+_BAD_EVENTS = ("exec", "compile", "os.remove", "os.rename", "os.mkdir", "os.rmdir", "os.system", "os.exec", "os.posix_spawn",
+               "os.spawn", "os.fork", "os.forkpty", "subprocess.Popen", "os.chmod", "os.chown", "os.link", "os.symlink",
+               "os.truncate", "shutil.rmtree", "shutil.move", "os.putenv", "ctypes.dlopen")
+
+
+def _audit_hook(event, args):
+    rec = _HOSTILE["rec"]
+    if rec is None:
+        return
+    bad = None
+    if event in _BAD_EVENTS or event.startswith("socket."):
+        bad = event
+    elif event == "open":
+        path, mode, flags = (list(args) + [None, None, None])[:3]
+        w = False
+        if isinstance(mode, str) and any(c in mode for c in "wax+"):
+            w = True
+        if isinstance(flags, int) and flags & (os.O_WRONLY | os.O_RDWR | os.O_CREAT | os.O_TRUNC | os.O_APPEND):
+            w = True
+        if w:
+            bad = "open-for-write:%s" % (path,)
+    elif event == "import":
+        mod = args[0]
+        root = mod.split(".")[0]
+        std = getattr(sys, "stdlib_module_names", None)
+        if root != "xdis" and not root.startswith("_") and std is not None and root not in std:
+            bad = "import:%s" % mod
+    if bad is None:
+        return
+    # traceback.print_exc() itself compiles the source line (caret placement) and reads sources
+    f = sys._getframe(1)
+    depth = 0
+    while f is not None and depth < 60:
+        fn = f.f_code.co_filename
+        if fn.endswith(("traceback.py", "linecache.py", "tokenize.py", "ast.py")):
+            return
+        f = f.f_back
+        depth += 1
+    rec.append(bad)
+
+
+def hostile_one(data, path, mem=False):
+    """load_module on hostile bytes: outcome, cpu seconds, memory peak, forbidden audit events."""
+    import time
+    x = xd()
+    with open(path, "wb") as f:
+        f.write(data)
+    rec = []
+    peak = None
+    if mem:
+        import tracemalloc
+        tracemalloc.start()
+    _HOSTILE["rec"] = rec
+    t0 = time.process_time()
+    try:
+        try:
+            r = x.load.load_module(path)
+            kind = "tuple" if isinstance(r, tuple) and len(r) == 7 else "returned:%s" % type(r).__name__
+            detail = ""
+            reached = True
+        except ImportError as e:
+            kind = "ImportError"
+            detail = str(e)[:80]
+            reached = detail.startswith("Ill-formed")
+        except BaseException as e:      # noqa
+            import traceback
+            kind = "other:%s" % type(e).__name__
+            tb = traceback.format_exc()
+            detail = tb[-1200:]
+            reached = True
+    finally:
+        cpu = time.process_time() - t0
+        _HOSTILE["rec"] = None
+        if mem:
+            import tracemalloc
+            peak = tracemalloc.get_traced_memory()[1]
+            tracemalloc.stop()
+    return {"kind": kind, "detail": detail, "cpu": cpu, "peak": peak, "audit": rec, "reached": reached}
+
+
+def hostile_one_forked(data, path, mem, limit):
+    """hostile_one in a forked child: the built-in marshal (native fast path) can crash the
+    interpreter or spin for minutes inside C code on corrupt data, where no Python-level
+    timeout can reach it."""
+    import select
+    import signal
+    r, w = os.pipe()
+    pid = os.fork()
+    if pid == 0:
+        try:
+            os.close(r)
+            out = json.dumps(hostile_one(data, path + ".child", mem))
+            with os.fdopen(w, "w") as f:
+                f.write(out)
+        finally:
+            os._exit(0)
+    os.close(w)
+    ready, _, _ = select.select([r], [], [], limit * 1.5 + 2.0)
+    if not ready:
+        os.kill(pid, signal.SIGKILL)
+        os.waitpid(pid, 0)
+        os.close(r)
+        return {"kind": "tuple-or-ImportError-not-reached", "detail": "", "cpu": limit * 1.5 + 2.0, "peak": None, "audit": [],
+                "reached": True, "timeout": True}
+    with os.fdopen(r) as f:
+        txt = f.read()
+    _, status = os.waitpid(pid, 0)
+    if not txt:
+        return {"kind": "interpreter-died", "detail": "exit status %s" % status, "cpu": 0.0, "peak": None, "audit": [],
+                "reached": True, "died": True}
+    return json.loads(txt)
+
+
+def _expand_hostile(spec):
+    """concrete inputs of one compact spec"""
+    if "hex" in spec:
+        yield spec, unhx(spec["hex"])
+        return
+    seed = _HOSTILE["seeds"][spec["seed"]]
+    if "prefix" in spec:
+        lo, hi = spec["prefix"]
+        for n in range(lo, min(hi, len(seed) + 1)):
+            yield {"seed": spec["seed"], "prefix": [n, n + 1]}, seed[:n]
+    elif "subst" in spec:
+        pos, lo, hi = spec["subst"]
+        if pos < len(seed):
+            for b in range(lo, hi):
+                if b != seed[pos]:
+                    yield {"seed": spec["seed"], "subst": [pos, b, b + 1]}, seed[:pos] + bytes([b]) + seed[pos + 1:]
+    elif "edits" in spec:
+        data = bytearray(seed)
+        for e in spec["edits"]:
+            op = e[0]
+            if op == "ins":
+                p = e[1] % (len(data) + 1)
+                data[p:p] = unhx(e[2])
+            elif op == "del":
+                p = e[1] % (len(data) + 1)
+                del data[p:p + e[2]]
+            elif op == "dup":
+                p = e[1] % (len(data) + 1)
+                data[p:p] = data[p:p + e[2]] * e[3]
+            elif op == "set":
+                if data:
+                    data[e[1] % len(data)] = e[2]
+            elif op == "splice":
+                other = _HOSTILE["seeds"][e[1] % len(_HOSTILE["seeds"])]
+                p = e[2] % (len(data) + 1)
+                q = e[3] % (len(other) + 1)
+                data = data[:p] + bytearray(other[q:])
+            elif op == "trunc":
+                del data[e[1] % (len(data) + 1):]
+        yield spec, bytes(data)
+
+
+def op_x_hostile_seeds(req):
+    _HOSTILE["seeds"] = [unhx(h) for h in req["seeds"]]
+    if not _HOSTILE["hook"]:
+        xd()
+        import traceback, linecache, unicodedata, datetime     # noqa: lazy stdlib imports are not the subject
+        sys.addaudithook(_audit_hook)
+        _HOSTILE["hook"] = True
+        # warm-up: first call imports lazily
+        hostile_one(b"garbage" * 20, scratch_path("hostile.pyc"))
+    return {"n": len(_HOSTILE["seeds"])}
+
+
+def op_x_hostile(req):
+    path = scratch_path("hostile.pyc")
+    n = reached = 0
+    kinds = {}
+    bad = []
+    cpu_small, cpu_big = req.get("cpu_small", 2.0), req.get("cpu_big", 20.0)
+    for spec in req["items"]:
+        for cspec, data in _expand_hostile(spec):
+            n += 1
+            mem = bool(req.get("mem")) or (_HOSTILE["n"] % 16 == 0)
+            _HOSTILE["n"] += 1
+            import importlib.util
+            native = data[:4] == importlib.util.MAGIC_NUMBER
+            limit = cpu_small if len(data) <= 65536 else cpu_big
+            if native:
+                r = hostile_one_forked(data, path, mem, limit)
+            else:
+                r = hostile_one(data, path, mem)
+            if r["reached"]:
+                reached += 1
+            kinds[r["kind"]] = kinds.get(r["kind"], 0) + 1
+            problems = []
+            if r.get("died"):
+                problems.append(["interpreter-died", r["detail"], ""])
+            elif r.get("timeout"):
+                problems.append(["cpu", "no answer within %.0fs for %d bytes (killed)" % (r["cpu"], len(data)), ""])
+            elif r["kind"] not in ("tuple", "ImportError"):
+                problems.append(["exception", r["kind"], r["detail"]])
+            for ev in r["audit"]:
+                problems.append(["audit", ev, ""])
+            if r["cpu"] > limit and not r.get("timeout"):
+                again = [(hostile_one_forked(data, path, False, limit) if native else hostile_one(data, path))["cpu"] for _ in range(2)]
+                if min(again) > limit:
+                    problems.append(["cpu", "%.1fs for %d bytes" % (min([r["cpu"]] + again), len(data)), ""])
+                else:
+                    kinds["cpu-inconclusive"] = kinds.get("cpu-inconclusive", 0) + 1
+            if r["peak"] is not None and r["peak"] > 64 * 2 ** 20 + 256 * len(data):
+                problems.append(["memory", "%d MiB peak for %d bytes" % (r["peak"] >> 20, len(data)), ""])
+            if problems and len(bad) < 12:
+                bad.append({"spec": cspec if "hex" in cspec or len(data) > 4096 else {"hex": hx(data)}, "len": len(data),
+                            "problems": problems, "native": native})
+    return {"n": n, "reached": reached, "kinds": kinds, "bad": bad}
 
 
 def op_x_std_api(req):
